@@ -28,8 +28,7 @@ Proof.
   unfold parents in He. apply filter_In in He. destruct He as [HeG Hd]. apply bytes_eqb_eq in Hd.
   destruct Hi as [<-|Hi].
   - exists e. split; [exact HeG|]. split; [reflexivity|]. rewrite Hd. constructor.
-  - destruct (bytes_eqb (e_up e) str_none); [destruct Hi|].
-    destruct (IH _ _ Hi) as (e0 & H0 & Hid & Ha). exists e0. split; [exact H0|]. split; [exact Hid|].
+  - destruct (IH _ _ Hi) as (e0 & H0 & Hid & Ha). exists e0. split; [exact H0|]. split; [exact Hid|].
     eapply anc_trans; [|exact Ha]. eapply anc_step; [constructor|].
     apply in_map_iff. exists e. rewrite Hd. auto.
 Qed.
@@ -143,7 +142,7 @@ Proof.
   destruct (find_edge_spec _ _ _ _ Hf) as (He0 & Hu0 & Hd0).
   set (e' := mkEdge (e_id e0) (e_up e0) (e_down e0) (e_type e0) rows (e_hash e0)).
   set (G := s_edges st) in *. set (G' := set_edge G e').
-  set (vs := e_id e0 :: (if bytes_eqb par str_none then [] else visits G' (fuel_of G') par)).
+  set (vs := e_id e0 :: visits G' (fuel_of G') par).
   set (h := fun e => if (e_id e =? e_id e')%N then e' else e).
   assert (Hh : forall e, In e G -> e_id (h e) = e_id e /\ e_up (h e) = e_up e /\ e_down (h e) = e_down e /\ e_type (h e) = e_type e).
   { intros e He. unfold h. destruct (e_id e =? e_id e')%N eqn:E; [|auto].
@@ -161,8 +160,7 @@ Proof.
     assert (Hne : e_down e <> x) by (intros E; apply (Hs x eq_refl); rewrite E; constructor).
     rewrite (Hh_other e He Hne). apply toggle_notin. unfold vs. intros [E|Hin].
     + assert (e0 = e) by (apply (nodup_map_inj e_id G); [apply (wf_ids st W)|exact He0|exact He|exact E]). subst e. contradiction.
-    + destruct (bytes_eqb par str_none); [destruct Hin|].
-      destruct (visits_anc _ _ _ _ Hin) as (e1 & H1 & Hid & Ha).
+    + destruct (visits_anc _ _ _ _ Hin) as (e1 & H1 & Hid & Ha).
       unfold G', set_edge in H1. fold h in H1. apply in_map_iff in H1. destruct H1 as (e2 & <- & H2).
       destruct (Hh e2 H2) as (I1 & I2 & I3 & _). rewrite I1 in Hid.
       assert (e2 = e) by (apply (nodup_map_inj e_id G); [apply (wf_ids st W)|exact H2|exact He|exact Hid]). subst e2.
@@ -258,7 +256,7 @@ Proof.
     + change (fold_left _ sends (D, wr U (EdgePts id pu [p]))) with (apply_edge_sends D (wr U (EdgePts id pu [p])) id pl pu sends).
       destruct FU as [eU FU].
       assert (F1 : frame (fun y => y = id) U (wr U (EdgePts id pu [p]))) by (eapply frame_wr_edge; [apply GU|exact Hpu|exact FU]).
-      assert (GU' : good (wr U (EdgePts id pu [p]))) by (apply good_wr; [exact GU|split; assumption]).
+      assert (GU' : good (wr U (EdgePts id pu [p]))) by (apply good_wr; [exact GU|assumption]).
       assert (FU' : exists e, find_edge (s_edges (wr U (EdgePts id pu [p]))) pu id = Some e).
       { destruct (frame_find_edge _ _ _ _ _ _ F1 FU) as (e' & E & _). eauto. }
       destruct (IH D _ id pl pu GD GU' Hpl Hpu Hn FD FU') as (A & B & C & E). cbv zeta in *.
@@ -266,7 +264,7 @@ Proof.
     + change (fold_left _ sends (wr D (EdgePts id pl [p]), U)) with (apply_edge_sends (wr D (EdgePts id pl [p])) U id pl pu sends).
       destruct FD as [eD FD].
       assert (F1 : frame (fun y => y = id) D (wr D (EdgePts id pl [p]))) by (eapply frame_wr_edge; [apply GD|exact Hpl|exact FD]).
-      assert (GD' : good (wr D (EdgePts id pl [p]))) by (apply good_wr; [exact GD|split; assumption]).
+      assert (GD' : good (wr D (EdgePts id pl [p]))) by (apply good_wr; [exact GD|assumption]).
       assert (FD' : exists e, find_edge (s_edges (wr D (EdgePts id pl [p]))) pl id = Some e).
       { destruct (frame_find_edge _ _ _ _ _ _ F1 FD) as (e' & E & _). eauto. }
       destruct (IH _ U id pl pu GD' GU Hpl Hpu Hn FD' FU) as (A & B & C & E). cbv zeta in *.
